@@ -29,6 +29,69 @@ theorem C09_gen_ftp_override :
     ObsTables.observedKeysOverriddenIn = ["simulator/system/services/ftp/ftp_service.py"] := by
   decide
 
+/-! ### the documented bands (spec side) = the code's functions -/
+
+/-- **counted occurrences**: with the thresholds an observation object can have (strictly ascending, `_validate_thresholds`), the table
+"number of thresholds passed" is the code's if-chain `> high → 3, > medium → 2, > low → 1, else 0` -/
+theorem C09_band_eq_code (t : Thr) (h : t.Ok) (n : Int) : specBand t n = categorise t n := by
+  obtain ⟨h1, h2⟩ := h
+  unfold specBand categorise
+  by_cases a : n > t.high
+  · have b : n > t.med := by omega
+    have c : n > t.low := by omega
+    simp [List.filter, a, b, c]
+  · by_cases b : n > t.med
+    · have c : n > t.low := by omega
+      simp [List.filter, a, b, c]
+    · by_cases c : n > t.low <;> simp [List.filter, a, b, c]
+
+/-- with the documented defaults the table reads 0 | 1-5 | 6-10 | >10 -/
+theorem C09_band_default_table (n : Int) :
+    categorise {} n = (if n ≤ 0 then 0 else if n ≤ 5 then 1 else if n ≤ 10 then 2 else 3) := by
+  unfold categorise
+  simp only []
+  split <;> split <;> (try split) <;> (try split) <;> (try split) <;> omega
+
+/-- without ascending thresholds the two readings differ — such an object cannot be constructed -/
+theorem C09_band_needs_ascending : specBand { low := 5, med := 3, high := 10 } 4 ≠ categorise { low := 5, med := 3, high := 10 } 4 := by
+  decide
+
+theorem count_range_le (q : Nat) : ∀ n, ((List.range n).filter (fun v => decide (v + 1 ≤ q))).length = min n q := by
+  intro n
+  induction n with
+  | zero => simp
+  | succ n ih =>
+    rw [List.range_succ, List.filter_append, List.length_append, ih]
+    by_cases h : n + 1 ≤ q <;> simp [List.filter, h] <;> omega
+
+/-- **utilisation**: the table "0 | one band per ninth | 10 from 100 % up" is the code's `min(int(x / b * 9) + 1, 10)` (0 for no traffic),
+for every amount and every capacity -/
+theorem C09_util_eq_code (x b : Nat) : specUtil x b = utilBin 10 x b := by
+  unfold specUtil utilBin
+  by_cases hx : x = 0
+  · simp [hx]
+  · by_cases hb : b = 0
+    · simp [hx, hb]
+    · have hb' : 0 < b := Nat.pos_of_ne_zero hb
+      simp only [hx, hb, if_false]
+      by_cases hle : b ≤ x
+      · simp only [hle, if_true]
+        have : 9 ≤ x * 9 / b := (Nat.le_div_iff_mul_le hb').mpr (by omega)
+        congr 1
+        omega
+      · simp only [hle, if_false]
+        have hq : x * 9 / b < 9 := (Nat.div_lt_iff_lt_mul hb').mpr (by omega)
+        have hcongr : (List.range 9).filter (fun v => decide ((v + 1) * b ≤ 9 * x)) =
+            (List.range 9).filter (fun v => decide (v + 1 ≤ x * 9 / b)) := by
+          apply List.filter_congr
+          intro v _
+          have : (v + 1 ≤ x * 9 / b) ↔ ((v + 1) * b ≤ 9 * x) := by
+            rw [Nat.le_div_iff_mul_le hb', Nat.mul_comm x 9]
+          simp [this]
+        rw [hcongr, count_range_le]
+        congr 1
+        omega
+
 /-! ### dictionary comprehension keyed by name = "find the object with that name" -/
 
 theorem lookupS_map {α β} (name : α → String) (f : α → β) (k : String) (l : List α) :
@@ -75,8 +138,9 @@ theorem C09_service_eq_spec (o : ServiceObs) (t : Truth) : o.val (describe t) = 
       | none => rfl
       | some sv => simp only [Option.map_some, describeSoftware, describedOp_eq_specOp]; rfl
 
-theorem C09_application_eq_spec (o : AppObs) (t : Truth) : o.val (describe t) = o.spec t := by
+theorem C09_application_eq_spec (o : AppObs) (t : Truth) (ht : o.thr.Ok) : o.val (describe t) = o.spec t := by
   unfold AppObs.val AppObs.find AppObs.spec
+  simp only [C09_band_eq_code o.thr ht]
   cases o.wh with
   | none => rfl
   | some p =>
@@ -107,8 +171,9 @@ theorem folder_find_describe (o : FolderObs) (t : Truth) :
       simp only [Option.map_some, Option.bind_some, describeNode]
       rw [show n.folders.map describeFolder = n.folders.map (fun x => (x.name, (describeFolder x).2)) from rfl, lookupS_map]
 
-theorem C09_file_eq_spec (o : FileObs) (t : Truth) : o.val (describe t) = o.spec t := by
+theorem C09_file_eq_spec (o : FileObs) (t : Truth) (ht : o.thr.Ok) : o.val (describe t) = o.spec t := by
   unfold FileObs.val FileObs.find FileObs.spec Truth.file
+  simp only [C09_band_eq_code o.thr ht]
   cases o.wh with
   | none => rfl
   | some p =>
@@ -134,7 +199,8 @@ observation re-establishes it.) -/
 def FolderObs.Coherent (o : FolderObs) (t : Truth) : Prop :=
   o.scan = true → ∀ h fo f, o.wh = some (h, fo) → t.folder h fo = some f → f.scanned = false → o.cached = f.visible
 
-theorem C09_folder_eq_spec (o : FolderObs) (t : Truth) (c : o.Coherent t) : o.val (describe t) = o.spec t := by
+theorem C09_folder_eq_spec (o : FolderObs) (t : Truth) (c : o.Coherent t) (ht : ∀ x ∈ o.files, x.thr.Ok) :
+    o.val (describe t) = o.spec t := by
   unfold FolderObs.val FolderObs.spec
   rw [folder_find_describe]
   cases hw : o.wh with
@@ -156,7 +222,7 @@ theorem C09_folder_eq_spec (o : FolderObs) (t : Truth) (c : o.Coherent t) : o.va
           | false => simp only [if_true, Bool.false_eq_true, if_false]; exact c hs h fo f hw hf hsc
       rw [hh]
       have hfiles : o.files.map (fun x => x.val (describe t)) = o.files.map (fun x => x.spec t) :=
-        List.map_congr_left (fun x _ => C09_file_eq_spec x t)
+        List.map_congr_left (fun x hx => C09_file_eq_spec x t (ht x hx))
       rw [hfiles]
 
 theorem nic_lookup_describe (t : Truth) (h : String) (i : Nat) :
@@ -168,8 +234,9 @@ theorem nic_lookup_describe (t : Truth) (h : String) (i : Nat) :
     simp only [Option.map_some, Option.bind_some, describeNode]
     rw [show n.nics.map describeNic = n.nics.map (fun x => (x.num, (describeNic x).2)) from rfl, lookupN_map]
 
-theorem C09_nic_eq_spec (o : NicObs) (t : Truth) : o.val (describe t) = o.spec t := by
+theorem C09_nic_eq_spec (o : NicObs) (t : Truth) (ht : o.thr.Ok) : o.val (describe t) = o.spec t := by
   unfold NicObs.val NicObs.find NicObs.spec
+  simp only [C09_band_eq_code o.thr ht, C09_util_eq_code]
   cases o.wh with
   | none => rfl
   | some p =>
@@ -194,7 +261,7 @@ theorem C09_port_eq_spec (o : PortObs) (t : Truth) : o.val (describe t) = o.spec
 
 theorem C09_link_eq_spec (o : LinkObs) (t : Truth) : o.val (describe t) = o.spec t := by
   unfold LinkObs.val LinkObs.find LinkObs.spec describe
-  simp only []
+  simp only [C09_util_eq_code]
   rw [show t.links.map describeLink = t.links.map (fun l => (linkRef l.epA l.epB, (describeLink l).2)) from rfl, lookupS_map, lookupS_map]
   cases t.links.find? (fun l => linkRef l.epA l.epB = linkRef o.a o.b) with
   | some l => rfl
@@ -292,7 +359,11 @@ theorem users_eq_spec (n : NodeT) (h : n.localUser ≠ some "") : usersVal (desc
 
 def HostObs.Coherent (o : HostObs) (t : Truth) : Prop := ∀ f ∈ o.folders, f.Coherent t
 
-theorem C09_host_eq_spec (o : HostObs) (t : Truth) (wt : WfTruth t) (c : o.Coherent t) :
+/-- every threshold triple inside the host observation is strictly ascending (the constructors refuse anything else) -/
+def HostObs.ThrOk (o : HostObs) : Prop :=
+  (∀ a ∈ o.apps, a.thr.Ok) ∧ (∀ f ∈ o.folders, ∀ x ∈ f.files, x.thr.Ok) ∧ (∀ n ∈ o.nics, n.thr.Ok)
+
+theorem C09_host_eq_spec (o : HostObs) (t : Truth) (wt : WfTruth t) (c : o.Coherent t) (ht : o.ThrOk) :
     o.val (describe t) = o.spec t := by
   unfold HostObs.val HostObs.find HostObs.spec
   cases o.wh with
@@ -308,11 +379,11 @@ theorem C09_host_eq_spec (o : HostObs) (t : Truth) (wt : WfTruth t) (c : o.Coher
         have h1 : o.services.map (fun x => x.val (describe t)) = o.services.map (fun x => x.spec t) :=
           List.map_congr_left (fun x _ => C09_service_eq_spec x t)
         have h2 : o.apps.map (fun x => x.val (describe t)) = o.apps.map (fun x => x.spec t) :=
-          List.map_congr_left (fun x _ => C09_application_eq_spec x t)
+          List.map_congr_left (fun x hx => C09_application_eq_spec x t (ht.1 x hx))
         have h3 : o.folders.map (fun x => x.val (describe t)) = o.folders.map (fun x => x.spec t) :=
-          List.map_congr_left (fun x hx => C09_folder_eq_spec x t (c x hx))
+          List.map_congr_left (fun x hx => C09_folder_eq_spec x t (c x hx) (ht.2.1 x hx))
         have h4 : o.nics.map (fun x => NicObs.val x (describe t)) = o.nics.map (fun x => NicObs.spec x t) :=
-          List.map_congr_left (fun x _ => C09_nic_eq_spec x t)
+          List.map_congr_left (fun x hx => C09_nic_eq_spec x t (ht.2.2 x hx))
         have h5 := users_eq_spec n (wt n (Truth.node_mem hn))
         rw [h1, h2, h3, h4, h5]
         rfl
@@ -352,13 +423,17 @@ theorem C09_firewall_eq_spec (o : FirewallObs) (t : Truth) (wt : WfTruth t) : o.
     · simp only [hop, if_false]
 
 mutual
-/-- what C09 needs of an observation object: folder memories coherent with the simulator, ACL id tables built by the constructor (no repeated entry) -/
+/-- what C09 needs of an observation object: folder memories coherent with the simulator, and the two invariants of construction — ACL
+id tables without repeated entry, threshold triples strictly ascending -/
 def Obs.Faithful (t : Truth) : Obs → Prop
-  | .folder o => o.Coherent t
+  | .app o => o.thr.Ok
+  | .file o => o.thr.Ok
+  | .nic o => o.thr.Ok
+  | .folder o => o.Coherent t ∧ ∀ x ∈ o.files, x.thr.Ok
   | .acl o => o.CfgOk
-  | .host o => o.Coherent t
+  | .host o => o.Coherent t ∧ o.ThrOk
   | .router o => o.acl.CfgOk
-  | .nodes o => (∀ h ∈ o.hosts, h.Coherent t) ∧ (∀ r ∈ o.routers, r.acl.CfgOk)
+  | .nodes o => (∀ h ∈ o.hosts, h.Coherent t ∧ h.ThrOk) ∧ (∀ r ∈ o.routers, r.acl.CfgOk)
   | .nested cs => Obs.FaithfulL t cs
   | _ => True
 def Obs.FaithfulL (t : Truth) : List (String × Obs) → Prop
@@ -373,22 +448,22 @@ theorem C09_observe_eq_spec (t : Truth) (wt : WfTruth t) :
     ∀ o : Obs, o.Faithful t → o.val (describe t) = o.spec t
   | .null, _ => rfl
   | .service o, _ => C09_service_eq_spec o t
-  | .app o, _ => C09_application_eq_spec o t
-  | .file o, _ => C09_file_eq_spec o t
-  | .folder o, c => C09_folder_eq_spec o t c
-  | .nic o, _ => C09_nic_eq_spec o t
+  | .app o, c => C09_application_eq_spec o t c
+  | .file o, c => C09_file_eq_spec o t c
+  | .folder o, c => C09_folder_eq_spec o t c.1 c.2
+  | .nic o, c => C09_nic_eq_spec o t c
   | .port o, _ => C09_port_eq_spec o t
   | .link o, _ => C09_link_eq_spec o t
   | .links os, _ => by
     simp only [Obs.val, Obs.spec]
     rw [List.map_congr_left (fun x _ => C09_link_eq_spec x t)]
   | .acl o, c => C09_acl_eq_spec o t c
-  | .host o, c => C09_host_eq_spec o t wt c
+  | .host o, c => C09_host_eq_spec o t wt c.1 c.2
   | .router o, c => C09_router_eq_spec o t wt c
   | .firewall o, _ => C09_firewall_eq_spec o t wt
   | .nodes o, c => by
     simp only [Obs.val, Obs.spec, NodesObs.val, NodesObs.spec]
-    rw [List.map_congr_left (fun x hx => C09_host_eq_spec x t wt (c.1 x hx)),
+    rw [List.map_congr_left (fun x hx => C09_host_eq_spec x t wt (c.1 x hx).1 (c.1 x hx).2),
         List.map_congr_left (fun x hx => C09_router_eq_spec x t wt (c.2 x hx)),
         List.map_congr_left (fun x _ => C09_firewall_eq_spec x t wt)]
   | .nested cs, c => by
@@ -412,24 +487,24 @@ theorem C09_scan_gating_service (o : ServiceObs) (t : Truth) (h name : String) (
   simp [ServiceObs.spec, hw, hn, hs, lookupK, specHealth]
 
 theorem C09_scan_gating_application (o : AppObs) (t : Truth) (h name : String) (n : NodeT) (s : SoftwareT)
-    (hw : o.wh = some (h, name)) (hn : t.node h = some n) (hs : n.apps.find? (fun x => x.name = name) = some s) :
+    (hw : o.wh = some (h, name)) (hn : t.node h = some n) (hs : n.apps.find? (fun x => x.name = name) = some s) (ht : o.thr.Ok) :
     lookupK (.s "health_status") (match o.val (describe t) with | .dict kvs => kvs | _ => []) =
       some (.int (if o.scan then s.healthVisible else s.healthActual)) := by
-  rw [C09_application_eq_spec]
+  rw [C09_application_eq_spec o t ht]
   simp [AppObs.spec, hw, hn, hs, lookupK, specHealth]
 
 theorem C09_scan_gating_file (o : FileObs) (t : Truth) (h fo fi : String) (f : FileT)
-    (hw : o.wh = some (h, fo, fi)) (hf : t.file h fo fi = some f) :
+    (hw : o.wh = some (h, fo, fi)) (hf : t.file h fo fi = some f) (ht : o.thr.Ok) :
     lookupK (.s "health_status") (match o.val (describe t) with | .dict kvs => kvs | _ => []) =
       some (.int (if o.scan then f.visible else f.health)) := by
-  rw [C09_file_eq_spec]
+  rw [C09_file_eq_spec o t ht]
   simp [FileObs.spec, hw, hf, lookupK]
 
 theorem C09_scan_gating_folder (o : FolderObs) (t : Truth) (c : o.Coherent t) (h fo : String) (f : FolderT)
-    (hw : o.wh = some (h, fo)) (hf : t.folder h fo = some f) :
+    (hw : o.wh = some (h, fo)) (hf : t.folder h fo = some f) (ht : ∀ x ∈ o.files, x.thr.Ok) :
     lookupK (.s "health_status") (match o.val (describe t) with | .dict kvs => kvs | _ => []) =
       some (.int (if o.scan then f.visible else f.health)) := by
-  rw [C09_folder_eq_spec o t c]
+  rw [C09_folder_eq_spec o t c ht]
   simp [FolderObs.spec, hw, hf, lookupK]
 
 /-! ### absent components and nodes that are not ON read as the default encoding -/
@@ -450,8 +525,8 @@ theorem C09_absent_default_host (o : HostObs) (st : SimState) (h : o.find st = n
   simp [HostObs.val, h]
 /-- a deleted file is not among the folder's live files, so its observation is the default -/
 theorem C09_deleted_file_default (o : FileObs) (t : Truth) (h fo fi : String) (hw : o.wh = some (h, fo, fi))
-    (hf : t.file h fo fi = none) : o.val (describe t) = o.default := by
-  rw [C09_file_eq_spec]; simp [FileObs.spec, hw, hf]
+    (hf : t.file h fo fi = none) (ht : o.thr.Ok) : o.val (describe t) = o.default := by
+  rw [C09_file_eq_spec o t ht]; simp [FileObs.spec, hw, hf]
 
 /-- a host that is present but not ON: every component leaf is its default, `operating_status` is still the power state -/
 theorem C09_not_on_default (o : HostObs) (st : SimState) (n : NodeState) (h : o.find st = some n)
@@ -575,12 +650,12 @@ theorem C09_nmne_memory (o : NicObs) (st : SimState) (n : NicState) (i u : Nat) 
 settings capture shows the band of the events since its previous observation, an interface whose settings do not capture shows zeros
 — whatever any other network, game or observation in the process is configured to do (no process-wide switch enters the statement) -/
 theorem C09_nmne_follows_interface (o : NicObs) (t : Truth) (h : String) (i : Nat) (n : NicT)
-    (hw : o.wh = some (h, i)) (hn : t.nic h i = some n) (hi : o.includeNmne = true) :
+    (hw : o.wh = some (h, i)) (hn : t.nic h i = some n) (hi : o.includeNmne = true) (ht : o.thr.Ok) :
     lookupK (.s "NMNE") (match o.val (describe t) with | .dict kvs => kvs | _ => []) =
       some (if n.capturing then
-              .dict (dirDict (.int (categorise o.thr ((n.nmneIn : Int) - o.lastIn))) (.int (categorise o.thr ((n.nmneOut : Int) - o.lastOut))))
+              .dict (dirDict (.int (specBand o.thr ((n.nmneIn : Int) - o.lastIn))) (.int (specBand o.thr ((n.nmneOut : Int) - o.lastOut))))
             else .dict (dirDict (.int 0) (.int 0))) := by
-  rw [C09_nic_eq_spec]
+  rw [C09_nic_eq_spec o t ht]
   simp [NicObs.spec, hw, hn, hi, optEntry, lookupK]
 
 /-! ### non-vacuity -/
@@ -600,27 +675,33 @@ def exTruth : Truth :=
 /-- the example host of C02, with a coherent folder cache, on a ground truth with compromised / fixing / over-threshold values -/
 def exHost9 : HostObs := { exHost with folders := exHost.folders.map (fun f => { f with cached := 4 }) }
 
-example : WfTruth exTruth ∧ (Obs.host exHost9).Faithful exTruth ∧
-    exHost9.val (describe exTruth) = exHost9.spec exTruth ∧ (exHost9.spec exTruth).raises = false := by
-  refine ⟨?_, ?_, ?_, by decide⟩
-  · intro n hn; simp only [exTruth, List.mem_singleton] at hn; subst hn; simp
-  · intro f hf
+theorem exHost9_coherent : exHost9.Coherent exTruth := by
+  intro f hf
+  simp only [exHost9, exHost, List.map_cons, List.map_nil, List.mem_singleton] at hf
+  subst hf
+  intro _ h fo f hw hfo _
+  simp only [Option.some.injEq, Prod.mk.injEq] at hw
+  obtain ⟨rfl, rfl⟩ := hw
+  simp [Truth.folder, Truth.node, exTruth] at hfo
+  subst hfo; rfl
+
+theorem thrDefault_ok : ({} : Thr).Ok := by unfold Thr.Ok; decide
+
+theorem exHost9_thrOk : exHost9.ThrOk := by
+  refine ⟨?_, ?_, ?_⟩
+  · intro a ha; simp only [exHost9, exHost, List.mem_singleton] at ha; subst ha; exact thrDefault_ok
+  · intro f hf x hx
     simp only [exHost9, exHost, List.map_cons, List.map_nil, List.mem_singleton] at hf
     subst hf
-    intro _ h fo f hw hfo _
-    simp only [Option.some.injEq, Prod.mk.injEq] at hw
-    obtain ⟨rfl, rfl⟩ := hw
-    simp [Truth.folder, Truth.node, exTruth] at hfo
-    subst hfo; rfl
+    simp only [List.mem_singleton] at hx
+    subst hx; exact thrDefault_ok
+  · intro n hn; simp only [exHost9, exHost, List.mem_singleton] at hn; subst hn; exact thrDefault_ok
+
+example : WfTruth exTruth ∧ (Obs.host exHost9).Faithful exTruth ∧
+    exHost9.val (describe exTruth) = exHost9.spec exTruth ∧ (exHost9.spec exTruth).raises = false := by
+  refine ⟨?_, ⟨exHost9_coherent, exHost9_thrOk⟩, ?_, by decide⟩
+  · intro n hn; simp only [exTruth, List.mem_singleton] at hn; subst hn; simp
   · exact C09_observe_eq_spec exTruth (by intro n hn; simp only [exTruth, List.mem_singleton] at hn; subst hn; simp)
-      (.host exHost9) (by
-        intro f hf
-        simp only [exHost9, exHost, List.map_cons, List.map_nil, List.mem_singleton] at hf
-        subst hf
-        intro _ h fo f hw hfo _
-        simp only [Option.some.injEq, Prod.mk.injEq] at hw
-        obtain ⟨rfl, rfl⟩ := hw
-        simp [Truth.folder, Truth.node, exTruth] at hfo
-        subst hfo; rfl)
+      (.host exHost9) ⟨exHost9_coherent, exHost9_thrOk⟩
 
 end Primaite.Obs
